@@ -88,6 +88,8 @@ def gen_query(rng, w, v_, d):
             c = [t for t in pool if not any(s == {t} for s in f['required'])]
             if c:
                 f['forbidden'].add(rng.choice(c))
+        if f['forbidden'] and rng.random() < 0.35:
+            f['required'] = []          # forbidden traits on their own
         f['required'] = [s for s in f['required']
                          if not s <= f['forbidden']]
     if ver >= 4 and rng.random() < 0.5:
